@@ -67,6 +67,30 @@ def strain_twin(d):
     return t
 
 
+def build_with_history(rng, d, c):
+    """the shell under test: fresh (60%) or after an earlier life - geometry (r2, L, angle) assigned, the object rebuilt (what
+    add_SPL does) or evaluated, then the geometry of `d` assigned.  Only r2, L and the angle are ever given by the user, so the
+    object as defined at call time is unambiguous"""
+    if rng.random() < 0.6:
+        return gen.build_shell(d)
+    pre = dict(d)
+    what = str(rng.choice(['angle_assigned_later', 'other_geometry']))
+    if what == 'angle_assigned_later':
+        pre['alphadeg'] = 0.0 if d['alphadeg'] else float(rng.uniform(5, 40))
+    else:
+        pre['alphadeg'] = float(rng.uniform(0, 50))
+        pre['L'] = d['L'] * float(rng.uniform(0.5, 2)); pre['r2'] = d['r2'] * float(rng.uniform(0.5, 2))
+    cc = gen.build_shell(pre)
+    if rng.random() < 0.5:
+        cc._rebuild()
+    else:
+        k0_of(cc)
+    cc.alphadeg = d['alphadeg']; cc.r2 = d['r2']; cc.L = d['L']
+    c.tag('history:' + what)
+    c.desc['history'] = {'kind': what, 'alphadeg': pre['alphadeg'], 'L': pre['L'], 'r2': pre['r2']}
+    return cc
+
+
 def run_case(rng, tier, idx):
     kind = KINDS[idx % len(KINDS)]
     c = Case({'kind': kind})
@@ -179,7 +203,7 @@ def case_energy(c, rng, tier):
     c.nontrivial = True
     free = None
     if not cone:
-        cc = gen.build_shell(d)
+        cc = build_with_history(rng, d, c)
         K = k0_surface(cc)
         tw = strain_twin(d)
         size = K.shape[0]
@@ -217,7 +241,7 @@ def case_energy(c, rng, tier):
     Ko = S = None
     for s in (10, 20, 40, 80):
         dd = dict(d); dd['s'] = s
-        cc = gen.build_shell(dd)
+        cc = build_with_history(rng, dd, c)
         K = k0_surface(cc)
         if Ko is None:
             size = K.shape[0]
@@ -415,7 +439,7 @@ def case_edges(c, rng, tier):
     c.desc['shell'] = d
     c.tag('model:' + d['model'], 'geom:cone' if d['alphadeg'] else 'geom:cylinder', 'springs:' + style)
     c.nontrivial = True
-    cc = gen.build_shell(d)
+    cc = build_with_history(rng, d, c)
     K1 = k0_of(cc)
     d0 = dict(d)
     for nm in names:
